@@ -72,6 +72,17 @@ def pin_third_party(seams: Seams):
     seams.replace_global("rf", RandomForestClassifier, rf_one_thread)
 
 
+def out_of_bounds(spec, batch):
+    """Independent of black-it's own grid: -> None or (row, col, value) outside the declared bounds (+-1e-7)."""
+    lo, hi = np.asarray(spec["bounds"][0], dtype=float), np.asarray(spec["bounds"][1], dtype=float)
+    for j in range(batch.shape[1]):
+        bad = (batch[:, j] < lo[j] - 1e-7) | (batch[:, j] > hi[j] + 1e-7)
+        if bad.any():
+            i = int(np.argmax(bad))
+            return i, j, batch[i, j]
+    return None
+
+
 def on_grid(space, batch):
     """-> None if every coordinate is an exact grid element, else (row, col, value)."""
     for j in range(space.dims):
